@@ -71,8 +71,12 @@ report("remove_duplicate_surfaces: cell.surfaces emptied", [len(x.surfaces) for 
 report("    ... and cell.complements emptied", len(p.cells[2].complements) != 1)
 # (7) equal-but-distinct surfaces
 p = read(); c = p.cells[1]; s1 = p.surfaces[1]; s1b = copy.deepcopy(s1)
-c.geometry = -s1b & +p.surfaces[2]
-report("geometry uses a distinct-but-equal copy: copy is not in cell.surfaces by identity", not has(c.surfaces, s1b))
+try:
+    c.geometry = -s1b & +p.surfaces[2]
+    used = True
+except montepy.errors.NumberConflictError:
+    used = False  # repaired: the copy is refused (the cell holds another surface with its number)
+report("geometry uses a distinct-but-equal copy: copy is not in cell.surfaces by identity", used and not has(c.surfaces, s1b))
 # (8) universe not registered / not linked
 p = read(); u5 = montepy.Universe(5); p.cells[1].universe = u5
 report("cell.universe = Universe(5): universe.cells misses the cell", [x.number for x in u5.cells] != [1])
